@@ -22,7 +22,7 @@ import (
 	authtypes "github.com/cosmos/cosmos-sdk/x/auth/types"
 )
 
-var msgTypes = []string{"send", "multisend", "custody_send", "register_identity_records", "set_network_properties", "upsert_token_info", "set_execution_fee"}
+var msgTypes = []string{"send", "multisend", "custody_send", "register_identity_records", "set_network_properties", "upsert_token_info", "set_execution_fee", "ethereum_tx"}
 
 func subset(r *hx.Rng, xs []string, pct int) []string {
 	var out []string
@@ -129,7 +129,11 @@ func (g *gen) msg(from string, fail bool) c09lib.M {
 	case 0, 1:
 		return c09lib.M{Kind: "send", From: from, To: to, Amt: g.amount("")}
 	case 2:
-		return c09lib.M{Kind: "custody_send", From: from, To: to, Amt: g.amount("")}
+		m := c09lib.M{Kind: "custody_send", From: from, To: to, Amt: g.amount("")}
+		if r.Chance(60) {
+			m.Reward = sdk.NewCoins(sdk.NewInt64Coin([]string{"ukex", "ukex", "ukex", "ubtc"}[r.Intn(4)], int64(r.Intn(120))))
+		}
+		return m
 	case 3:
 		a := g.amount("")
 		if len(a) == 1 && a[0].Amount.GT(sdk.OneInt()) && r.Bool() {
@@ -258,10 +262,13 @@ func minU(a, b uint64) uint64 {
 	return b
 }
 
-func classOf(resp abci.ResponseDeliverTx) int {
+// admitted: the first signer's sequence went up (evidence that the ante handler's branch was written)
+func classOf(resp abci.ResponseDeliverTx, admitted bool) int {
 	switch {
 	case resp.Code == 0:
 		return 0
+	case resp.Code == 111222 && admitted:
+		return 4
 	case resp.Code == 111222:
 		return 3
 	case strings.Contains(resp.Log, "failed to execute message"):
@@ -291,7 +298,10 @@ func main() {
 	s0, _ := e.Stranger(0)
 	s1, _ := e.Stranger(1)
 	g := &gen{r: r, people: []string{"a0", "a1", "a2", "a3", "a4", s0, s1}}
-	watch := []string{"a0", "a1", "a2", "a3", "a4", s0, s1, c09lib.Collector}
+	watch := []string{"a0", "a1", "a2", "a3", "a4", "e0", "e1", s0, s1, c09lib.Collector}
+	for _, n := range []string{"e0", "e1"} {
+		e.Fund(ctx0, e.AddrOf(n), sdk.NewCoins(sdk.NewInt64Coin("ukex", 1000000000000), sdk.NewInt64Coin("ubtc", 1000000000)))
+	}
 	signers := []string{"a0", "a1", "a2", "a3", "a4"}
 	dist := hx.Counter{}
 	var lines []string
@@ -312,6 +322,14 @@ func main() {
 		ctx := app.BaseApp.NewContext(false, hdr)
 		adversarial := r.Chance(8) || b < 2
 		c := randCfg(r, adversarial)
+		if b >= 2 && r.Chance(12) { // custody settings on some signers
+			c.MinRew = uint64(r.Intn(30))
+			for _, n := range []string{"a0", "a1", "a2"} {
+				if r.Chance(45) {
+					c.Custody = append(c.Custody, c09lib.Cust{Name: n, Enabled: r.Chance(80), Custodians: r.Intn(4) - 1})
+				}
+			}
+		}
 		if b < 2 {
 			c.Tokens[0] = c09lib.Tok{Denom: "ukex", Rate: sdk.NewDec(1), FeeEnabled: true}
 		}
@@ -363,7 +381,29 @@ func main() {
 				one := sdk.NewCoins(sdk.NewInt64Coin("ukex", 1))
 				ms = []c09lib.M{{Kind: "send", From: from, To: "a1", Amt: one}, {Kind: "multisend", From: from, Amt: one, Outs: []c09lib.Out{{To: "a2", Amt: one}}}}
 			}
-			sg := c09lib.Signers(ms)
+			t := c09lib.TxSpec{Msgs: ms, SigOK: !r.Chance(3)}
+			if b >= 2 && r.Chance(10) { // an Ethereum native send from an Ethereum-style account
+				em := c09lib.M{Kind: "eth", From: []string{"e0", "e1"}[r.Intn(2)], To: g.people[r.Intn(len(g.people))], EthAmt: int64(r.Intn(600))}
+				if r.Chance(30) {
+					em.EthRem = int64(r.Intn(1000000))
+				}
+				if r.Chance(5) {
+					em.To = c09lib.Collector
+				}
+				ms = []c09lib.M{em}
+				if r.Chance(10) {
+					ms = append(ms, g.msg("a0", false))
+					t.SigOK = false
+				}
+				t.Msgs = ms
+			}
+			if b >= 2 && r.Chance(8) {
+				t.Payer = signers[r.Intn(4)]
+			}
+			if b >= 2 {
+				t.NoGas, t.Grant = r.Chance(2), r.Chance(2)
+			}
+			sg := c09lib.SignersOf(t)
 			seqs := make([]uint64, len(sg))
 			for k, s := range sg {
 				seqs[k] = seqOf(ctx, s)
@@ -371,7 +411,7 @@ func main() {
 			if r.Chance(4) {
 				seqs[r.Intn(len(seqs))] += uint64(1 + r.Intn(2))
 			}
-			t := c09lib.TxSpec{Fee: g.fee(c, ms), Msgs: ms, Seqs: seqs, SigOK: !r.Chance(3)}
+			t.Fee, t.Seqs = g.fee(c, ms), seqs
 			if b < 2 && i == 0 {
 				t.Fee, t.SigOK = []sdk.Coin{sdk.NewInt64Coin("ukex", 100)}, true
 				for k, s := range sg {
@@ -384,8 +424,9 @@ func main() {
 			}
 			dumpB := e.Dump(ctx)
 			balB := e.Balances(ctx, watch)
+			seq0 := seqOf(ctx, sg[0])
 			resp := app.DeliverTx(abci.RequestDeliverTx{Tx: bz})
-			class := classOf(resp)
+			class := classOf(resp, seqOf(ctx, sg[0]) != seq0)
 			dumpA := e.Dump(ctx)
 			balA := e.Balances(ctx, watch)
 			deltas := c09lib.Deltas(balB, balA)
@@ -508,7 +549,7 @@ func main() {
 		"From Sekai Require Import Base.Prelude Base.Dec Model.Filters Model.Fees Gen.AnteChain Model.C09Check.\n"
 	out.WriteFile("pre.v", pre)
 	out.WriteFile("cases.txt", strings.Join(lines, "\n")+"\n")
-	out.WriteJSON("meta.json", map[string]string{"case_type": "c09_case", "mismatch_fn": "c09_mismatches gen_shape gen_wired", "violation_fn": "c09_violations"})
+	out.WriteJSON("meta.json", map[string]string{"case_type": "c09_case", "mismatch_fn": "c09_mismatches gen_shape (mkWiring gen_wired gen_post_handler_installed)", "violation_fn": "c09_violations"})
 	out.WriteJSON("cases.json", js)
 	out.WriteJSON("dist.json", map[string]interface{}{"seed": seed, "cases": len(js), "by_kind": dist})
 	fmt.Fprintf(os.Stderr, "c09: %d cases\n", len(js))
